@@ -13,6 +13,7 @@ CONSTANTS
   Submittable <- N2Sub
   MaxSub = 1
   PNames <- P1
+  Observing = FALSE
 VIEW view
 INVARIANTS TypeOK StateIsMainChain NoStalePooled NoDupSlot ReadyRunsGapFree NoPooledTxOnMainChain ExecutedNoncesSequential NoHashExecutedTwice ProducedBlockIsValid
 PROPERTIES ReturnedToPool PoolChangesExplained NoChangeWithoutNewBest
